@@ -11,9 +11,9 @@ Theorem C15_inv : forall (c : gclass) (ops : list gop), Inv (run c ops empty_gra
 Proof. intros c ops. apply run_inv. exact Inv_empty. Qed.
 Print Assumptions C15_inv.
 
-Theorem C15_depot_first : forall g nm g',
-  (set_depot g nm = Ok g' \/ seq_set_depot g nm = Ok g') -> hd_error (names g') = Some nm.
-Proof. intros g nm g' [H|H]; [exact (set_depot_first _ _ _ H) | exact (seq_set_depot_first _ _ _ H)]. Qed.
+Theorem C15_depot_first : forall s g nm g',
+  (set_depot g nm = Ok g' \/ seq_set_depot s g nm = Ok g') -> hd_error (names g') = Some nm.
+Proof. intros s g nm g' [H|H]; [exact (set_depot_first _ _ _ H) | exact (seq_set_depot_first _ _ _ _ H)]. Qed.
 Print Assumptions C15_depot_first.
 
 Theorem C15_depot_stays_first : forall c g o x,
@@ -59,10 +59,28 @@ Proof.
 Qed.
 Print Assumptions C15_error_conditions.
 
+(* The sequence class's set_depot (which in strict mode re-adds every stored arc by the names of its
+   endpoints when the depot moved) raises, on a graph satisfying the invariant, exactly for an unknown
+   name: the re-adding loop never raises there. *)
+Theorem C15_seq_set_depot_error_condition : forall s g nm,
+  Inv g -> ((exists e, seq_set_depot s g nm = Err e) <-> ~ In nm (names g)).
+Proof. exact seq_set_depot_error_iff. Qed.
+Print Assumptions C15_seq_set_depot_error_condition.
+
 (* Non-vacuity: a history in which the depot is chosen after arcs exist; the arc A->B, stored
    under (0,1), is re-filed under (1,2) when C moves to the front. *)
 Example C15_history_rekeys :
   let g := run Base [OpAddNode 10 0 0 (Fin 5); OpAddNode 11 0 0 (Fin 5); OpAddNode 12 0 0 PInf;
                      OpAddArc 10 11 1 1; OpSetDepot 12] empty_graph in
   names g = [12%nat; 10%nat; 11%nat] /\ map fst (arcs g) = [(1%nat, 2%nat)].
+Proof. vm_compute. split; reflexivity. Qed.
+
+(* Strict sequence class: the arc A->B (travel time 3, A (0,10), B (0,5)) is stored while A is node 0
+   (lenient rule 0+3 <= 5); when set_depot moves D to the front the stored arcs are re-added with the
+   rule for their new positions and A->B (10+3 > 5) is dropped; the non-strict class keeps it. *)
+Example C15_history_strict_recheck :
+  let ops := [OpAddNode 11 1 0 (Fin 10); OpAddNode 12 1 0 (Fin 5); OpAddNode 10 0 0 PInf;
+              OpAddArc 11 12 3 1; OpSetDepot 10] in
+  map fst (arcs (run (Seq true) ops empty_graph)) = [(0%nat, 0%nat)] /\
+  map fst (arcs (run (Seq false) ops empty_graph)) = [(1%nat, 2%nat); (0%nat, 0%nat)].
 Proof. vm_compute. split; reflexivity. Qed.
